@@ -35,6 +35,11 @@ def generate(master, index, tier):
     rng = R.rng_for(master, PROP, index)
     n = rng.choice((1, 2, 3, 5, 8, 12, 20, 30))
     items = W.gen_hostile_items(rng, n)
+    if index % 200 == 57:
+        # long-lived connection: a long run of valid frames with hostile items sprinkled in
+        items = W.gen_long_valid_run(rng, rng.choice((150, 300, 700, 1500)))
+        for _ in range(rng.choice((0, 1, 3, 10))):
+            items.insert(rng.randrange(len(items) + 1), W.gen_bad(rng))
     kind = rng.choice(("bytesio", "buffered", "serial", "serial", "socket", "socket"))
     fault_free = rng.random() < 0.3
     sched = W.gen_fault_sched(rng, kind, items, fault_free)
